@@ -94,3 +94,33 @@ def halflock_proof(chk, consts, timeout=600):
     if not m:
         chk.note("tlapm did not prove every obligation of HalfLockProof.tla (see work/tlaps_%s/tlapm.out): no "
                  "verdict drawn from it" % chk.pid)
+
+
+def tlaps_proof(chk, module, theorem, applies, why_not=""):
+    """Re-check a TLAPS proof that lives in spec/<module>; `applies` says whether the shape the proof is
+    about is the shape extracted from the code."""
+    if shutil.which("tlapm") is None:
+        chk.note("tlapm not found: the TLAPS proof (%s) was not re-checked" % module)
+        return
+    if not applies:
+        chk.note("%s is a proof about the step order the code has on the pinned tree; the extracted shape differs "
+                 "(%s): the proof does not apply" % (module, why_not))
+        return
+    rundir = os.path.join(WORK, "tlaps_%s_%s" % (chk.pid, module[:-4]))
+    shutil.rmtree(rundir, ignore_errors=True)
+    os.makedirs(rundir)
+    shutil.copy(os.path.join(SPEC, module), rundir)
+    t0 = time.time()
+    p = subprocess.run(["timeout", "600", "tlapm", "--threads", "8", module], cwd=rundir,
+                       stdout=subprocess.PIPE, stderr=subprocess.STDOUT, text=True, errors="replace")
+    wall = round(time.time() - t0, 1)
+    with open(os.path.join(rundir, "tlapm.out"), "w") as f:
+        f.write(p.stdout[-100000:])
+    m = re.search(r"All (\d+) obligations proved", p.stdout)
+    chk.extra.setdefault("proofs", []).append({
+        "module": module, "tool": "tlapm (TLAPS 1.6; SMT / Zenon / Isabelle back ends)", "theorem": theorem,
+        "obligations_proved": int(m.group(1)) if m else 0, "all_proved": bool(m), "wall_s": wall})
+    print("  PRF %-40s %s in %.1fs" % (module + " (TLAPS)", m.group(0) if m else "NOT all obligations proved", wall),
+          flush=True)
+    if not m:
+        chk.note("tlapm did not prove every obligation of %s: no verdict drawn from it" % module)
